@@ -498,6 +498,52 @@ def bounded(K):
                             bad.append({'sps': sps, 'order': order, 'delay': d, 'raised': f'{type(e).__name__}: {e}'[:100]})
         gv.clean()
         return {'n': n, 'distinct': len(seen), 'bad': bad[:5], 'nbad': len(bad)}
+    def work_range():
+        import numpy as np, warnings, re
+        from opticomlib.lab import PPG3204
+        warnings.simplefilter('ignore')
+        bad, n = [], 0
+        lims = {'VOLT:POS': (0.3, 2.0), 'SKEW': (-25e-12, 25e-12), 'OFFS': (-2.0, 3.0), 'PATT:LENG': (1, 2 ** 21), 'FREQ': (1.5e9, 32e9)}
+        orders = (7, 9, 11, 15, 23, 31)
+        reqs = {'set_output_voltage': [0, -3, 1, 5, 0.1, 0.3, 1.0, 2.0, 7.5, np.int64(0), np.float32(0.05), [0, 5, 1, -3], [0.1, 2.5, 1.0, 0.3], np.array([0, 10, 1, 2]), np.array([0.2, 10.0, 1.0, 2.0])],
+                'set_skew': [0, -1, 1, 1e-12, -30e-12, 30e-12, [0, 1, -1, 0], [1e-12, -40e-12, 40e-12, 0.0]],
+                'set_offset': [0, -5, 5, 1, -2, 3, 0.5, -2.5, 3.5, [0, -5, 5, 1], [0.5, -2.5, 3.5, 0.0], np.array([-3, 4, 0, 1])],
+                'set_patt_len': [0, 1, 100, 2 ** 21, 2 ** 22, -5, [0, 1, 2 ** 22, 50]],
+                'set_prbs_order': [7, 8, 10, 31, 40, 1, [7, 9, 11, 15], [8, 10, 12, 20], [7.5, 9.9, 15.2, 31.7], np.array([7.5, 8.5, 12.2, 30.9]), np.array([7, 8, 9, 10])],
+                'set_freq': [1e9, 1.5e9, 10e9, 32e9, 40e9, 0, -1e9]}
+        for meth, vals in reqs.items():
+            for v in vals:
+                n += 1
+                ppg = PPG3204()
+                ppg.inst = FakeInst()
+                try:
+                    getattr(ppg, meth)(v)
+                except (ValueError, TypeError):
+                    pass                      # a request in an unsupported format is rejected; whatever was sent before the rejection is still checked
+                except Exception as e:
+                    bad.append({'setter': meth, 'request': repr(v)[:60], 'raised': f'{type(e).__name__}: {e}'[:100]})
+                    continue
+                for cmd in ppg.inst.log:
+                    m = re.match(r'^:(?:DIG|SKEW|VOLT)(\d)(.*?) ?(-?[0-9.eE+-]+)v?$', cmd) or re.match(r'^:(FREQ)() (-?[0-9.eE+-]+)$', cmd)
+                    if not m:
+                        bad.append({'setter': meth, 'request': repr(v)[:60], 'command not understood': cmd})
+                        continue
+                    val = float(m.group(3))
+                    if m.group(1) != 'FREQ' and not 1 <= int(m.group(1)) <= 4:
+                        bad.append({'setter': meth, 'request': repr(v)[:60], 'channel': m.group(1)})
+                    if meth == 'set_prbs_order':
+                        okv = val in orders
+                    else:
+                        key = 'FREQ' if meth == 'set_freq' else ('VOLT:POS' if meth == 'set_output_voltage' else 'SKEW' if meth == 'set_skew' else 'OFFS' if meth == 'set_offset' else 'PATT:LENG')
+                        lo, hi = lims[key]
+                        okv = lo - 1e-18 <= val <= hi + 1e-18
+                    if not okv:
+                        bad.append({'setter': meth, 'request': repr(v)[:60], 'command': cmd})
+        return {'n': n, 'distinct': n, 'bad': bad[:6], 'nbad': len(bad)}
+    st, r = native(work_range, 600)
+    K.bounded('range_native', st == 'ok' and r['nbad'] == 0, {'evaluations': r['n'] if st == 'ok' else 0, 'distinct_nontrivial': r['distinct'] if st == 'ok' else 0,
+              'bound': 'every setter with python/numpy int and float scalars, lists and arrays, in range, at the limits and beyond: each command sent to the simulated instrument carries a channel in 1..4 and a value inside the documented limits (PRBS order in the supported list)',
+              'samples': [{'setter': 'set_output_voltage', 'request': 0}], 'failures': r if st == 'ok' else [st, r]})
     st, r = native(work_rt, 1800)
     K.bounded('roundtrip', st == 'ok' and r['nbad'] == 0, {'evaluations': r['n'] if st == 'ok' else 0, 'distinct_nontrivial': r['distinct'] if st == 'ok' else 0,
               'bound': 'lengths 1..5000 (thorough: 10^4) across 1024-bit boundaries x 3 start addresses x 4 channel selections against a simulated instrument; 12 (thorough 60) histories of 8 writes on one driver object (A, B inside A, A again, random writes, B, A) with a full read-back after each', 'samples': [{'len': 2049, 'start': 5, 'CHs': [1, 3]}],
